@@ -1025,7 +1025,15 @@ where
             .collect::<Vec<OwnedCell>>();
 
         // Split the cell's array.
-        let (mut left_cells, right_cells) = Self::split_cells(cells);
+        let (mut left_cells, mut right_cells) = Self::split_cells(cells);
+
+        // When an interior root is split, the last cell of the left half moves up as the new
+        // separator: the left node must still keep at least one key of its own.
+        if !was_leaf {
+            while left_cells.len() < 2 && right_cells.len() > 1 {
+                left_cells.push(right_cells.remove(0));
+            }
+        }
 
         // Choose the appropiate cell to propagate based on the type of page.
         // We need to copy  because we also need to insert it on the new leaves (this is a Bplustree, so the data must reside on the leaf pages.)
